@@ -283,6 +283,7 @@ pub(crate) fn uri_pick(i: u8) -> uri::Rsync {
     match i {
         0 => rsync_hm("rsync://h/m/a/x"),
         1 => rsync_hm("rsync://h/m/a/y"),
+        3 => rsync_hm("rsync://H/m/a/x"),
         _ => rsync_hm("rsync://h/m/b/x"),
     }
 }
@@ -309,70 +310,493 @@ fn c10z_fixtures_are_wellformed() {
 }
 
 
-/// Current objects of publisher "a": each of x, y present or not, with
-/// arbitrary (fixture) content.
-fn any_current() -> (CurrentObjects, [Option<u8>; 2]) {
+//------------ C10(a): CurrentObjects::verify_delta_applies ---------------------
+//
+// Shapes are concrete (which URIs exist, which element kinds the delta has);
+// contents and stated hashes are symbolic.  X and Y lie inside publisher a's
+// jail, O belongs to publisher b.
+
+use crate::verif_fix::base64_sym;
+
+/// Replacement body for `<CurrentObjectUri as From<&uri::Rsync>>::from`.
+/// The real function builds the key with `format!("{}{}", canonical_module,
+/// path)`; `core::fmt` dispatches through function pointers that CBMC has to
+/// expand against every `Display`/`Debug` implementation in the program (the
+/// smallest harness that called it did not finish in 10 min).  The model
+/// builds the same text without `fmt`: the URI's bytes with the authority
+/// part (between "rsync://" and the next '/') in ASCII lower case.  The
+/// native test `vk_key_model_matches_real` (run by the driver through the
+/// playback target) compares model and real function on the fixture URIs.
+pub(crate) fn model_key_from<'a>(value: &'a uri::Rsync) -> CurrentObjectUri where 'a: 'a {
+    let mut v: Vec<u8> = value.as_str().as_bytes().to_vec();
+    let alen = value.authority().len();
+    v[8..8 + alen].make_ascii_lowercase();
+    let a: Arc<str> = Arc::from(unsafe { std::str::from_utf8_unchecked(&v) });
+    // no deallocation inside the model, and the key's count pinned at 2 (see
+    // verif_fix::base64_raw for why)
+    std::mem::forget(v);
+    std::mem::forget(a.clone());
+    CurrentObjectUri(a)
+}
+
+pub(crate) const X: u8 = 0;
+pub(crate) const Y: u8 = 1;
+pub(crate) const O: u8 = 2;
+/// x spelled with an upper-case host name: the same object as X.
+pub(crate) const XU: u8 = 3;
+
+/// An arbitrary content letter (16 possibilities).
+pub(crate) fn any_content() -> u8 {
+    let c: u8 = kani::any();
+    kani::assume(c < 16);
+    c
+}
+
+/// A stated hash: the hash of an arbitrary content, or one that is the hash
+/// of no content at all.
+pub(crate) fn any_stated_hash() -> (Hash, Option<u8>) {
+    let c = any_content();
+    if kani::any() { (hash_of(c), Some(c)) } else { (hash_other(), None) }
+}
+
+/// Current objects of publisher a: `{x: cx}` (and `y: cy` when `WITH_Y`).
+pub(crate) fn current_a<const WITH_Y: bool>(cx: u8, cy: u8) -> CurrentObjects {
     let mut objs = CurrentObjects::default();
-    let mut have = [None, None];
-    let mut i = 0u8;
-    while i < 2 {
-        if kani::any() {
-            let c: u8 = kani::any();
-            kani::assume(c < 16);
-            objs.0.insert(CurrentObjectUri::from(&uri_pick(i)), base64_of(c));
-            have[i as usize] = Some(c);
-        }
-        i += 1;
-    }
-    (objs, have)
+    objs.0.insert(CurrentObjectUri::from(&uri_pick(X)), base64_sym(cx));
+    if WITH_Y { objs.0.insert(CurrentObjectUri::from(&uri_pick(Y)), base64_sym(cy)); }
+    objs
 }
 
-fn any_hash() -> (Hash, Option<u8>) {
-    if kani::any() {
-        let c: u8 = kani::any();
-        kani::assume(c < 16);
-        (hash_of(c), Some(c))
-    } else {
-        (hash_other(), None)
+pub(crate) fn holds(objs: &CurrentObjects, which: u8, c: u8) -> bool {
+    match objs.0.get(&CurrentObjectUri::from(&uri_pick(which))) {
+        Some(b) => b.as_str().as_bytes()[0] == b'A' + c,
+        None => false,
     }
 }
 
-/// One-element delta against 0..2 current objects: accepted exactly when the
-/// URI lies inside the publisher's jail AND (publish: the URI is new;
-/// update/withdraw: the URI currently holds content with the stated hash).
-// vk: timeout=900; unwindset=memcmp.0:20; bound=0..2 current objects (x, y) with 16 possible contents, one delta element of any kind for x, y or a URI of another publisher, stated hash = hash of any content or a foreign hash; Base64::to_hash modelled collision-free
+pub(crate) fn lacks(objs: &CurrentObjects, which: u8) -> bool {
+    !objs.0.contains_key(&CurrentObjectUri::from(&uri_pick(which)))
+}
+
+/// A one-element delta of kind `KIND` (0 publish, 1 update, 2 withdraw)
+/// addressed at URI `W`, against the current set `{x: cx}`: accepted exactly
+/// when the URI lies inside the publisher's jail AND (publish: the URI is
+/// new; update/withdraw: the URI currently holds content with the stated
+/// hash).  One call of the function under test per harness: two calls in one
+/// harness exceeded the memory cap.
+fn verify_single<const W: u8, const KIND: u8>() {
+    let cx = any_content();
+    let objs = current_a::<false>(cx, 0);
+    let inside = W != O;
+    let present = W == X || W == XU;
+    let (hash, hc) = any_stated_hash();
+    let content = any_content();
+    let jail = jail_a();
+    let delta = match KIND {
+        0 => DeltaElements::new(vec![PublishElement { uri: uri_pick(W), base64: base64_sym(content) }], vec![], vec![]),
+        1 => DeltaElements::new(vec![], vec![UpdateElement { uri: uri_pick(W), hash, base64: base64_sym(content) }], vec![]),
+        _ => DeltaElements::new(vec![], vec![], vec![WithdrawElement { uri: uri_pick(W), hash }]),
+    };
+    let res = objs.verify_delta_applies(&delta, &jail);
+    let expect = inside && if KIND == 0 { !present } else { present && hc == Some(cx) };
+    assert!(res.is_ok() == expect);
+    // witness: the interesting outcome of the shape is reachable
+    kani::cover!(if KIND != 0 && present { res.is_ok() } else { res.is_ok() == expect });
+    std::mem::forget((res, objs, delta, jail));
+}
+
+// vk: timeout=600; unwindset=memcmp.0:33; flags=--no-assertion-reach-checks; bound=current set {x: any of 16 contents}; one publish element for a present uri, content and stated hash arbitrary (hash of any content or a foreign hash); modelled: Base64::to_hash (collision-free), CurrentObjectUri::from (no fmt), <[u8]>::eq_ignore_ascii_case (loop-free); model map
 #[kani::proof]
 #[kani::unwind(5)]
 #[kani::stub(rpki::ca::publication::Base64::to_hash, stub_to_hash)]
-fn c10a_verify_one_element() {
-    let (objs, have) = any_current();
-    let kind: u8 = kani::any();
-    let which: u8 = kani::any();
-    kani::assume(kind < 3 && which < 3);
-    let uri = uri_pick(which);
-    let inside = which < 2;
-    let (hash, hc) = any_hash();
-    let content: u8 = kani::any();
-    kani::assume(content < 16);
-    let delta = match kind {
-        0 => DeltaElements::new(vec![PublishElement { uri, base64: base64_of(content) }], vec![], vec![]),
-        1 => DeltaElements::new(vec![], vec![UpdateElement { uri, hash, base64: base64_of(content) }], vec![]),
-        _ => DeltaElements::new(vec![], vec![], vec![WithdrawElement { uri, hash }]),
+#[kani::stub(<CurrentObjectUri as core::convert::From<&uri::Rsync>>::from, model_key_from)]
+#[kani::stub(<[u8]>::eq_ignore_ascii_case, crate::verif_fix::eq_ignore_ascii_case_16)]
+fn c10a_publish_present_uri() { verify_single::<X, 0>(); }
+
+// vk: timeout=600; unwindset=memcmp.0:33; flags=--no-assertion-reach-checks; bound=current set {x: any of 16 contents}; one update element for a present uri, content and stated hash arbitrary (hash of any content or a foreign hash); modelled: Base64::to_hash (collision-free), CurrentObjectUri::from (no fmt), <[u8]>::eq_ignore_ascii_case (loop-free); model map
+#[kani::proof]
+#[kani::unwind(5)]
+#[kani::stub(rpki::ca::publication::Base64::to_hash, stub_to_hash)]
+#[kani::stub(<CurrentObjectUri as core::convert::From<&uri::Rsync>>::from, model_key_from)]
+#[kani::stub(<[u8]>::eq_ignore_ascii_case, crate::verif_fix::eq_ignore_ascii_case_16)]
+fn c10a_update_present_uri() { verify_single::<X, 1>(); }
+
+// vk: timeout=600; unwindset=memcmp.0:33; flags=--no-assertion-reach-checks; bound=current set {x: any of 16 contents}; one withdraw element for a present uri, content and stated hash arbitrary (hash of any content or a foreign hash); modelled: Base64::to_hash (collision-free), CurrentObjectUri::from (no fmt), <[u8]>::eq_ignore_ascii_case (loop-free); model map
+#[kani::proof]
+#[kani::unwind(5)]
+#[kani::stub(rpki::ca::publication::Base64::to_hash, stub_to_hash)]
+#[kani::stub(<CurrentObjectUri as core::convert::From<&uri::Rsync>>::from, model_key_from)]
+#[kani::stub(<[u8]>::eq_ignore_ascii_case, crate::verif_fix::eq_ignore_ascii_case_16)]
+fn c10a_withdraw_present_uri() { verify_single::<X, 2>(); }
+
+// vk: timeout=600; unwindset=memcmp.0:33; flags=--no-assertion-reach-checks; bound=current set {x: any of 16 contents}; one publish element for a present uri other case, content and stated hash arbitrary (hash of any content or a foreign hash); modelled: Base64::to_hash (collision-free), CurrentObjectUri::from (no fmt), <[u8]>::eq_ignore_ascii_case (loop-free); model map
+#[kani::proof]
+#[kani::unwind(5)]
+#[kani::stub(rpki::ca::publication::Base64::to_hash, stub_to_hash)]
+#[kani::stub(<CurrentObjectUri as core::convert::From<&uri::Rsync>>::from, model_key_from)]
+#[kani::stub(<[u8]>::eq_ignore_ascii_case, crate::verif_fix::eq_ignore_ascii_case_16)]
+fn c10a_publish_present_uri_other_case() { verify_single::<XU, 0>(); }
+
+// vk: timeout=600; unwindset=memcmp.0:33; flags=--no-assertion-reach-checks; bound=current set {x: any of 16 contents}; one update element for a present uri other case, content and stated hash arbitrary (hash of any content or a foreign hash); modelled: Base64::to_hash (collision-free), CurrentObjectUri::from (no fmt), <[u8]>::eq_ignore_ascii_case (loop-free); model map
+#[kani::proof]
+#[kani::unwind(5)]
+#[kani::stub(rpki::ca::publication::Base64::to_hash, stub_to_hash)]
+#[kani::stub(<CurrentObjectUri as core::convert::From<&uri::Rsync>>::from, model_key_from)]
+#[kani::stub(<[u8]>::eq_ignore_ascii_case, crate::verif_fix::eq_ignore_ascii_case_16)]
+fn c10a_update_present_uri_other_case() { verify_single::<XU, 1>(); }
+
+// vk: timeout=600; unwindset=memcmp.0:33; flags=--no-assertion-reach-checks; bound=current set {x: any of 16 contents}; one withdraw element for a present uri other case, content and stated hash arbitrary (hash of any content or a foreign hash); modelled: Base64::to_hash (collision-free), CurrentObjectUri::from (no fmt), <[u8]>::eq_ignore_ascii_case (loop-free); model map
+#[kani::proof]
+#[kani::unwind(5)]
+#[kani::stub(rpki::ca::publication::Base64::to_hash, stub_to_hash)]
+#[kani::stub(<CurrentObjectUri as core::convert::From<&uri::Rsync>>::from, model_key_from)]
+#[kani::stub(<[u8]>::eq_ignore_ascii_case, crate::verif_fix::eq_ignore_ascii_case_16)]
+fn c10a_withdraw_present_uri_other_case() { verify_single::<XU, 2>(); }
+
+// vk: timeout=600; unwindset=memcmp.0:33; flags=--no-assertion-reach-checks; bound=current set {x: any of 16 contents}; one publish element for a absent uri, content and stated hash arbitrary (hash of any content or a foreign hash); modelled: Base64::to_hash (collision-free), CurrentObjectUri::from (no fmt), <[u8]>::eq_ignore_ascii_case (loop-free); model map
+#[kani::proof]
+#[kani::unwind(5)]
+#[kani::stub(rpki::ca::publication::Base64::to_hash, stub_to_hash)]
+#[kani::stub(<CurrentObjectUri as core::convert::From<&uri::Rsync>>::from, model_key_from)]
+#[kani::stub(<[u8]>::eq_ignore_ascii_case, crate::verif_fix::eq_ignore_ascii_case_16)]
+fn c10a_publish_absent_uri() { verify_single::<Y, 0>(); }
+
+// vk: timeout=600; unwindset=memcmp.0:33; flags=--no-assertion-reach-checks; bound=current set {x: any of 16 contents}; one update element for a absent uri, content and stated hash arbitrary (hash of any content or a foreign hash); modelled: Base64::to_hash (collision-free), CurrentObjectUri::from (no fmt), <[u8]>::eq_ignore_ascii_case (loop-free); model map
+#[kani::proof]
+#[kani::unwind(5)]
+#[kani::stub(rpki::ca::publication::Base64::to_hash, stub_to_hash)]
+#[kani::stub(<CurrentObjectUri as core::convert::From<&uri::Rsync>>::from, model_key_from)]
+#[kani::stub(<[u8]>::eq_ignore_ascii_case, crate::verif_fix::eq_ignore_ascii_case_16)]
+fn c10a_update_absent_uri() { verify_single::<Y, 1>(); }
+
+// vk: timeout=600; unwindset=memcmp.0:33; flags=--no-assertion-reach-checks; bound=current set {x: any of 16 contents}; one withdraw element for a absent uri, content and stated hash arbitrary (hash of any content or a foreign hash); modelled: Base64::to_hash (collision-free), CurrentObjectUri::from (no fmt), <[u8]>::eq_ignore_ascii_case (loop-free); model map
+#[kani::proof]
+#[kani::unwind(5)]
+#[kani::stub(rpki::ca::publication::Base64::to_hash, stub_to_hash)]
+#[kani::stub(<CurrentObjectUri as core::convert::From<&uri::Rsync>>::from, model_key_from)]
+#[kani::stub(<[u8]>::eq_ignore_ascii_case, crate::verif_fix::eq_ignore_ascii_case_16)]
+fn c10a_withdraw_absent_uri() { verify_single::<Y, 2>(); }
+
+// vk: timeout=600; unwindset=memcmp.0:33; flags=--no-assertion-reach-checks; bound=current set {x: any of 16 contents}; one publish element for a foreign uri, content and stated hash arbitrary (hash of any content or a foreign hash); modelled: Base64::to_hash (collision-free), CurrentObjectUri::from (no fmt), <[u8]>::eq_ignore_ascii_case (loop-free); model map
+#[kani::proof]
+#[kani::unwind(5)]
+#[kani::stub(rpki::ca::publication::Base64::to_hash, stub_to_hash)]
+#[kani::stub(<CurrentObjectUri as core::convert::From<&uri::Rsync>>::from, model_key_from)]
+#[kani::stub(<[u8]>::eq_ignore_ascii_case, crate::verif_fix::eq_ignore_ascii_case_16)]
+fn c10a_publish_foreign_uri() { verify_single::<O, 0>(); }
+
+// vk: timeout=600; unwindset=memcmp.0:33; flags=--no-assertion-reach-checks; bound=current set {x: any of 16 contents}; one update element for a foreign uri, content and stated hash arbitrary (hash of any content or a foreign hash); modelled: Base64::to_hash (collision-free), CurrentObjectUri::from (no fmt), <[u8]>::eq_ignore_ascii_case (loop-free); model map
+#[kani::proof]
+#[kani::unwind(5)]
+#[kani::stub(rpki::ca::publication::Base64::to_hash, stub_to_hash)]
+#[kani::stub(<CurrentObjectUri as core::convert::From<&uri::Rsync>>::from, model_key_from)]
+#[kani::stub(<[u8]>::eq_ignore_ascii_case, crate::verif_fix::eq_ignore_ascii_case_16)]
+fn c10a_update_foreign_uri() { verify_single::<O, 1>(); }
+
+// vk: timeout=600; unwindset=memcmp.0:33; flags=--no-assertion-reach-checks; bound=current set {x: any of 16 contents}; one withdraw element for a foreign uri, content and stated hash arbitrary (hash of any content or a foreign hash); modelled: Base64::to_hash (collision-free), CurrentObjectUri::from (no fmt), <[u8]>::eq_ignore_ascii_case (loop-free); model map
+#[kani::proof]
+#[kani::unwind(5)]
+#[kani::stub(rpki::ca::publication::Base64::to_hash, stub_to_hash)]
+#[kani::stub(<CurrentObjectUri as core::convert::From<&uri::Rsync>>::from, model_key_from)]
+#[kani::stub(<[u8]>::eq_ignore_ascii_case, crate::verif_fix::eq_ignore_ascii_case_16)]
+fn c10a_withdraw_foreign_uri() { verify_single::<O, 2>(); }
+
+/// All or nothing: a delta whose FIRST element is fine (publish y) and whose
+/// second is an update or withdraw of x with an arbitrary stated hash is
+/// accepted exactly when that second element is acceptable too.
+fn verify_pair<const KIND2: u8>() {
+    let cx = any_content();
+    let objs = current_a::<false>(cx, 0);
+    let (hx, hxc) = any_stated_hash();
+    let (ny, nx) = (any_content(), any_content());
+    let jail = jail_a();
+    let publishes = vec![PublishElement { uri: uri_pick(Y), base64: base64_sym(ny) }];
+    let delta = if KIND2 == 1 {
+        DeltaElements::new(publishes, vec![UpdateElement { uri: uri_pick(X), hash: hx, base64: base64_sym(nx) }], vec![])
+    } else {
+        DeltaElements::new(publishes, vec![], vec![WithdrawElement { uri: uri_pick(X), hash: hx }])
     };
-    let res = objs.verify_delta_applies(&delta, &jail_a());
-    let present = if inside { have[which as usize] } else { None };
-    let expect_ok = inside && match kind {
-        0 => present.is_none(),
-        _ => present.is_some() && hc == present,
+    let res = objs.verify_delta_applies(&delta, &jail);
+    assert!(res.is_ok() == (hxc == Some(cx)));
+    kani::cover!(res.is_ok());
+    kani::cover!(res.is_err());
+    std::mem::forget((res, objs, delta, jail));
+}
+
+// vk: timeout=600; unwindset=memcmp.0:33; flags=--no-assertion-reach-checks; bound=current set {x}; delta = publish(y) + update(x) with arbitrary contents and stated hash; models as above
+#[kani::proof]
+#[kani::unwind(5)]
+#[kani::stub(rpki::ca::publication::Base64::to_hash, stub_to_hash)]
+#[kani::stub(<CurrentObjectUri as core::convert::From<&uri::Rsync>>::from, model_key_from)]
+#[kani::stub(<[u8]>::eq_ignore_ascii_case, crate::verif_fix::eq_ignore_ascii_case_16)]
+fn c10a_pair_publish_then_update() { verify_pair::<1>(); }
+
+// vk: timeout=600; unwindset=memcmp.0:33; flags=--no-assertion-reach-checks; bound=current set {x}; delta = publish(y) + withdraw(x) with arbitrary contents and stated hash; models as above
+#[kani::proof]
+#[kani::unwind(5)]
+#[kani::stub(rpki::ca::publication::Base64::to_hash, stub_to_hash)]
+#[kani::stub(<CurrentObjectUri as core::convert::From<&uri::Rsync>>::from, model_key_from)]
+#[kani::stub(<[u8]>::eq_ignore_ascii_case, crate::verif_fix::eq_ignore_ascii_case_16)]
+fn c10a_pair_publish_then_withdraw() { verify_pair::<2>(); }
+
+/// All or nothing: publish(`P`) + update(x) + withdraw(y) against `{x, y}`
+/// where the publish element is never acceptable (occupied or foreign URI):
+/// refused whatever the other two elements say.
+fn verify_three<const P: u8>() {
+    let (cx, cy) = (any_content(), any_content());
+    let objs = current_a::<true>(cx, cy);
+    let (hx, hxc) = any_stated_hash();
+    let (hy, hyc) = any_stated_hash();
+    let (np, nx) = (any_content(), any_content());
+    let jail = jail_a();
+    let delta = DeltaElements::new(
+        vec![PublishElement { uri: uri_pick(P), base64: base64_sym(np) }],
+        vec![UpdateElement { uri: uri_pick(X), hash: hx, base64: base64_sym(nx) }],
+        vec![WithdrawElement { uri: uri_pick(Y), hash: hy }],
+    );
+    let res = objs.verify_delta_applies(&delta, &jail);
+    assert!(res.is_err());
+    kani::cover!(res.is_err() && hxc == Some(cx) && hyc == Some(cy));
+    std::mem::forget((res, objs, delta, jail));
+}
+
+// vk: timeout=600; unwindset=memcmp.0:33; flags=--no-assertion-reach-checks; bound=current set {x, y} with arbitrary contents; delta = publish(occupied URI) + update(x) + withdraw(y) with arbitrary stated hashes; models as above
+#[kani::proof]
+#[kani::unwind(5)]
+#[kani::stub(rpki::ca::publication::Base64::to_hash, stub_to_hash)]
+#[kani::stub(<CurrentObjectUri as core::convert::From<&uri::Rsync>>::from, model_key_from)]
+#[kani::stub(<[u8]>::eq_ignore_ascii_case, crate::verif_fix::eq_ignore_ascii_case_16)]
+fn x10a_three_publish_occupied() { verify_three::<Y>(); }
+
+// vk: timeout=600; unwindset=memcmp.0:33; flags=--no-assertion-reach-checks; bound=current set {x, y} with arbitrary contents; delta = publish(foreign URI) + update(x) + withdraw(y) with arbitrary stated hashes; models as above
+#[kani::proof]
+#[kani::unwind(5)]
+#[kani::stub(rpki::ca::publication::Base64::to_hash, stub_to_hash)]
+#[kani::stub(<CurrentObjectUri as core::convert::From<&uri::Rsync>>::from, model_key_from)]
+#[kani::stub(<[u8]>::eq_ignore_ascii_case, crate::verif_fix::eq_ignore_ascii_case_16)]
+fn c10a_three_publish_foreign() { verify_three::<O>(); }
+
+/// Applying a (verified) delta does exactly what it says: publish adds,
+/// update replaces, withdraw removes, nothing else changes.
+// vk: timeout=600; unwindset=memcmp.0:33; flags=--no-assertion-reach-checks; bound=current set {x}; deltas publish(y)+update(x) and publish(y)+withdraw(x), arbitrary contents; models as above
+#[kani::proof]
+#[kani::unwind(5)]
+#[kani::stub(rpki::ca::publication::Base64::to_hash, stub_to_hash)]
+#[kani::stub(<CurrentObjectUri as core::convert::From<&uri::Rsync>>::from, model_key_from)]
+#[kani::stub(<[u8]>::eq_ignore_ascii_case, crate::verif_fix::eq_ignore_ascii_case_16)]
+fn x10a_apply_delta_exact() {
+    let cx = any_content();
+    let mut objs = current_a::<false>(cx, 0);
+    let (ny, nx) = (any_content(), any_content());
+    let d_upd = DeltaElements::new(
+        vec![PublishElement { uri: uri_pick(Y), base64: base64_sym(ny) }],
+        vec![UpdateElement { uri: uri_pick(X), hash: hash_of(cx), base64: base64_sym(nx) }],
+        vec![],
+    );
+    let d_wdr = DeltaElements::new(vec![], vec![], vec![WithdrawElement { uri: uri_pick(X), hash: hash_of(nx) }]);
+    objs.apply_delta(d_upd);
+    assert!(objs.len() == 2 && holds(&objs, X, nx) && holds(&objs, Y, ny));
+    objs.apply_delta(d_wdr);
+    assert!(objs.len() == 1 && lacks(&objs, X) && holds(&objs, Y, ny));
+    kani::cover!(nx != cx);
+    std::mem::forget(objs);
+}
+
+//------------ C10(c) / C11(d): merging staged elements -------------------------
+//
+// A publisher may send further deltas before the staged ones have been cut
+// into an RRDP delta.  `StagedElements::merge_new_elements` folds the new
+// element into the staged one.  What the property needs from the result: the
+// merged element, applied to the *published snapshot*, gives the same object
+// as applying the staged and then the new element (the list reply shows the
+// latest content), and an update/withdraw in it states the hash of what the
+// snapshot holds - otherwise an RRDP client at the previous serial cannot
+// apply the delta.  Snapshot: {x: cx}; y is not in the snapshot.
+
+/// `S`: what is staged (1 publish y, 2 update x, 3 withdraw x); `D`: the new
+/// element for the same URI (0 publish, 1 update, 2 withdraw).
+fn merge_case<const S: u8, const D: u8>() {
+    let (cx, c1, c2) = (any_content(), any_content(), any_content());
+    let w = if S == 1 { Y } else { X };
+    let mut staged = StagedElements::default();
+    let first = match S {
+        1 => DeltaElement::Publish(PublishElement { uri: uri_pick(w), base64: base64_sym(c1) }),
+        2 => DeltaElement::Update(UpdateElement { uri: uri_pick(w), hash: hash_of(cx), base64: base64_sym(c1) }),
+        _ => DeltaElement::Withdraw(WithdrawElement { uri: uri_pick(w), hash: hash_of(cx) }),
     };
-    assert!(res.is_ok() == expect_ok);
-    kani::cover!(res.is_ok() && kind == 0);
-    kani::cover!(res.is_ok() && kind == 1);
-    kani::cover!(res.is_ok() && kind == 2);
-    kani::cover!(res.is_err() && !inside);
-    kani::cover!(res.is_err() && inside && kind == 0);
-    kani::cover!(res.is_err() && inside && kind == 2 && present.is_some());
-    std::mem::forget((res, objs, delta));
+    staged.0.insert(uri_pick(w), first);
+    // the new element as the publisher computed it: against snapshot + staged
+    let new = match D {
+        0 => DeltaElements::new(vec![PublishElement { uri: uri_pick(w), base64: base64_sym(c2) }], vec![], vec![]),
+        1 => DeltaElements::new(vec![], vec![UpdateElement { uri: uri_pick(w), hash: hash_of(c1), base64: base64_sym(c2) }], vec![]),
+        _ => DeltaElements::new(vec![], vec![], vec![WithdrawElement { uri: uri_pick(w), hash: hash_of(c1) }]),
+    };
+    staged.merge_new_elements(new);
+    let merged = staged.0.get(&uri_pick(w));
+    let letter = |b: &Base64| b.as_str().as_bytes()[0];
+    match (S, D) {
+        // publish y then update y: still a publish (y is not in the snapshot), newest content
+        (1, 1) => match merged {
+            Some(DeltaElement::Publish(p)) => assert!(letter(&p.base64) == b'A' + c2),
+            _ => assert!(false),
+        },
+        // publish y then withdraw y: nothing ever becomes visible
+        (1, 2) => assert!(merged.is_none() && staged.0.len() == 0),
+        // update x then update x: one update, replacing what the SNAPSHOT holds, newest content
+        (2, 1) => match merged {
+            Some(DeltaElement::Update(u)) => assert!(u.hash == hash_of(cx) && letter(&u.base64) == b'A' + c2),
+            _ => assert!(false),
+        },
+        // update x then withdraw x: a withdraw of what the SNAPSHOT holds
+        (2, 2) => match merged {
+            Some(DeltaElement::Withdraw(wd)) => assert!(wd.hash == hash_of(cx)),
+            _ => assert!(false),
+        },
+        // withdraw x then publish x: an update of what the SNAPSHOT holds
+        _ => match merged {
+            Some(DeltaElement::Update(u)) => assert!(u.hash == hash_of(cx) && letter(&u.base64) == b'A' + c2),
+            _ => assert!(false),
+        },
+    }
+    kani::cover!(c1 != cx && c2 != c1);
+    std::mem::forget(staged);
+}
+
+// vk: timeout=600; unwindset=memcmp.0:33; flags=--no-assertion-reach-checks; bound=one staged element and one new element for the same URI (publish then update), contents arbitrary (16 letters); models: Base64::to_hash collision-free, <[u8]>::eq_ignore_ascii_case loop-free; model map
+#[kani::proof]
+#[kani::unwind(5)]
+#[kani::stub(rpki::ca::publication::Base64::to_hash, stub_to_hash)]
+#[kani::stub(<CurrentObjectUri as core::convert::From<&uri::Rsync>>::from, model_key_from)]
+#[kani::stub(<[u8]>::eq_ignore_ascii_case, crate::verif_fix::eq_ignore_ascii_case_16)]
+fn c10c_merge_publish_then_update() { merge_case::<1, 1>(); }
+
+// vk: timeout=600; unwindset=memcmp.0:33; flags=--no-assertion-reach-checks; bound=one staged element and one new element for the same URI (publish then withdraw), contents arbitrary (16 letters); models: Base64::to_hash collision-free, <[u8]>::eq_ignore_ascii_case loop-free; model map
+#[kani::proof]
+#[kani::unwind(5)]
+#[kani::stub(rpki::ca::publication::Base64::to_hash, stub_to_hash)]
+#[kani::stub(<CurrentObjectUri as core::convert::From<&uri::Rsync>>::from, model_key_from)]
+#[kani::stub(<[u8]>::eq_ignore_ascii_case, crate::verif_fix::eq_ignore_ascii_case_16)]
+fn x10c_merge_publish_then_withdraw() { merge_case::<1, 2>(); }
+
+// vk: tier=thorough; timeout=600; unwindset=memcmp.0:33; flags=--no-assertion-reach-checks; bound=one staged element and one new element for the same URI (update then update), contents arbitrary (16 letters); models: Base64::to_hash collision-free, <[u8]>::eq_ignore_ascii_case loop-free; model map
+#[kani::proof]
+#[kani::unwind(5)]
+#[kani::stub(rpki::ca::publication::Base64::to_hash, stub_to_hash)]
+#[kani::stub(<CurrentObjectUri as core::convert::From<&uri::Rsync>>::from, model_key_from)]
+#[kani::stub(<[u8]>::eq_ignore_ascii_case, crate::verif_fix::eq_ignore_ascii_case_16)]
+fn c10c_merge_update_then_update() { merge_case::<2, 1>(); }
+
+// vk: timeout=600; unwindset=memcmp.0:33; flags=--no-assertion-reach-checks; bound=one staged element and one new element for the same URI (update then withdraw), contents arbitrary (16 letters); models: Base64::to_hash collision-free, <[u8]>::eq_ignore_ascii_case loop-free; model map
+#[kani::proof]
+#[kani::unwind(5)]
+#[kani::stub(rpki::ca::publication::Base64::to_hash, stub_to_hash)]
+#[kani::stub(<CurrentObjectUri as core::convert::From<&uri::Rsync>>::from, model_key_from)]
+#[kani::stub(<[u8]>::eq_ignore_ascii_case, crate::verif_fix::eq_ignore_ascii_case_16)]
+fn x10c_merge_update_then_withdraw() { merge_case::<2, 2>(); }
+
+// vk: timeout=600; unwindset=memcmp.0:33; flags=--no-assertion-reach-checks; bound=one staged element and one new element for the same URI (withdraw then publish), contents arbitrary (16 letters); models: Base64::to_hash collision-free, <[u8]>::eq_ignore_ascii_case loop-free; model map
+#[kani::proof]
+#[kani::unwind(5)]
+#[kani::stub(rpki::ca::publication::Base64::to_hash, stub_to_hash)]
+#[kani::stub(<CurrentObjectUri as core::convert::From<&uri::Rsync>>::from, model_key_from)]
+#[kani::stub(<[u8]>::eq_ignore_ascii_case, crate::verif_fix::eq_ignore_ascii_case_16)]
+fn c10c_merge_withdraw_then_publish() { merge_case::<3, 0>(); }
+
+//------------ C11(d): the same merge kernels seen from the RRDP client ---------
+//
+// An RRDP delta is cut from the merged staged elements; a client at the
+// previous serial can apply it only if every update/withdraw in it states the
+// hash of what the previous snapshot holds.  Same harness bodies as C10(c).
+
+// vk: timeout=600; unwindset=memcmp.0:33; flags=--no-assertion-reach-checks; bound=one staged element and one new element for the same URI (update then update), contents arbitrary (16 letters); models: Base64::to_hash collision-free, <[u8]>::eq_ignore_ascii_case loop-free; model map
+#[kani::proof]
+#[kani::unwind(5)]
+#[kani::stub(rpki::ca::publication::Base64::to_hash, stub_to_hash)]
+#[kani::stub(<CurrentObjectUri as core::convert::From<&uri::Rsync>>::from, model_key_from)]
+#[kani::stub(<[u8]>::eq_ignore_ascii_case, crate::verif_fix::eq_ignore_ascii_case_16)]
+fn c11d_delta_hash_matches_snapshot_update_then_update() { merge_case::<2, 1>(); }
+
+// vk: timeout=600; unwindset=memcmp.0:33; flags=--no-assertion-reach-checks; bound=one staged element and one new element for the same URI (withdraw then publish), contents arbitrary (16 letters); models: Base64::to_hash collision-free, <[u8]>::eq_ignore_ascii_case loop-free; model map
+#[kani::proof]
+#[kani::unwind(5)]
+#[kani::stub(rpki::ca::publication::Base64::to_hash, stub_to_hash)]
+#[kani::stub(<CurrentObjectUri as core::convert::From<&uri::Rsync>>::from, model_key_from)]
+#[kani::stub(<[u8]>::eq_ignore_ascii_case, crate::verif_fix::eq_ignore_ascii_case_16)]
+fn c11d_delta_hash_matches_snapshot_withdraw_then_publish() { merge_case::<3, 0>(); }
+
+//------------ C11(e): size-based truncation keeps a prefix --------------------
+
+fn delta_with(serial: u64, big: bool) -> DeltaData {
+    // size_approx = (text length >> 2) * 3: "AAAA" counts 3, 16 letters count 12
+    let b = if big { crate::verif_fix::base64_raw("AAAAAAAAAAAAAAAA") } else { crate::verif_fix::base64_raw("AAAA") };
+    DeltaData::new(serial, t0(), RrdpFileRandom(String::new()),
+        DeltaElements::new(vec![PublishElement { uri: uri_pick(X), base64: b }], vec![], vec![]))
+}
+
+/// `deltas_truncate_size` keeps the longest newest-first prefix whose summed
+/// size does not exceed the snapshot size - never a delta behind one that
+/// was dropped, so the retained serials stay a contiguous run ending at the
+/// current serial.
+// vk: timeout=900; unwindset=memcmp.0:33; flags=--no-assertion-reach-checks; bound=3 deltas (serials 5,4,3), each small (3) or big (12) chosen by the solver, snapshot of one object of size 12; model map
+#[kani::proof]
+#[kani::unwind(6)]
+fn x11e_size_truncation_keeps_prefix() {
+    let big: [bool; 3] = kani::any();
+    let mut deltas = VecDeque::new();
+    deltas.push_back(delta_with(5, big[0]));
+    deltas.push_back(delta_with(4, big[1]));
+    deltas.push_back(delta_with(3, big[2]));
+    let mut objs = CurrentObjects::default();
+    objs.0.insert(CurrentObjectUri(Arc::from("k")), crate::verif_fix::base64_raw("AAAAAAAAAAAAAAAA"));
+    let mut pubs: HashMap<PublisherHandle, CurrentObjects> = HashMap::new();
+    pubs.insert(PublisherHandle::new("a".into()), objs);
+    let mut slot = std::mem::MaybeUninit::<RrdpServer>::uninit();
+    let p = slot.as_mut_ptr();
+    unsafe {
+        std::ptr::addr_of_mut!((*p).deltas).write(deltas);
+        std::ptr::addr_of_mut!((*p).snapshot).write(SnapshotData::new(RrdpFileRandom(String::new()), pubs));
+    }
+    let server: &mut RrdpServer = unsafe { &mut *p };
+    server.deltas_truncate_size();
+    let size = |b: bool| if b { 12usize } else { 3usize };
+    let mut expect = 0usize;
+    let mut total = 0usize;
+    let mut i = 0;
+    while i < 3 {
+        total += size(big[i]);
+        if total > 12 { break; }
+        expect += 1;
+        i += 1;
+    }
+    assert!(server.deltas.len() == expect);
+    let mut j = 0;
+    while j < server.deltas.len() {
+        assert!(server.deltas[j].serial() == 5 - j as u64);
+        j += 1;
+    }
+    kani::cover!(expect == 1 && !big[2]);   // a small delta behind a dropped big one
+    kani::cover!(expect == 3);
+    std::mem::forget(slot);
+}
+
+/// Native validation of the key model (not a Kani harness): model and real
+/// `CurrentObjectUri::from` agree on the fixture URIs and on parsed URIs.
+#[cfg(test)]
+#[test]
+fn vk_key_model_matches_real() {
+    for i in 0..4u8 {
+        let u = uri_pick(i);
+        assert_eq!(model_key_from(&u), CurrentObjectUri::from(&u));
+        let parsed = uri::Rsync::from_str(u.as_str()).unwrap();
+        assert_eq!(parsed, u);
+        assert_eq!(model_key_from(&parsed), CurrentObjectUri::from(&parsed));
+    }
+    let j = jail_a();
+    assert_eq!(model_key_from(&j), CurrentObjectUri::from(&j));
+    for s in ["rsync://Example.ORG/repo/ca/x.cer", "rsync://localhost:3000/m/", "rsync://a.b/Mod/Path/File.ROA"] {
+        let u = uri::Rsync::from_str(s).unwrap();
+        assert_eq!(model_key_from(&u), CurrentObjectUri::from(&u));
+    }
 }
 
 #[cfg(test)]
